@@ -477,9 +477,10 @@ static Manifold randomRot(const Manifold& m, bool convex) {
 }
 static double now() { return std::chrono::duration<double>(std::chrono::steady_clock::now().time_since_epoch()).count(); }
 
+static bool gLopsided = false;
 static void minkCase(int idx, bool inset, bool wantAConvex, bool wantBConvex) {
   std::string na, nb;
-  Manifold A = wantAConvex ? convexShape((int)R->below(8), na) : nonConvexShape((int)R->below(7), na);
+  Manifold A = gLopsided ? convexShape(6 + (int)R->below(2), na) : wantAConvex ? convexShape((int)R->below(8), na) : nonConvexShape((int)R->below(7), na);
   Manifold B = wantBConvex ? convexShape((int)R->below(8), nb) : nonConvexShape((int)R->below(7), nb);
   static const double scales[] = {0.2, 0.5, 1.0, 2.0, 4.0};
   double sa = scales[R->below(4)], sb = scales[R->below(5)];
@@ -495,7 +496,7 @@ static void minkCase(int idx, bool inset, bool wantAConvex, bool wantBConvex) {
   if (q.empty()) { stats["skipped_noInterior"]++; return; }
   B = B.Translate(-toVec(q[0]));
   // place A: centred on the origin, or anywhere
-  int place = (int)R->below(3);
+  int place = gLopsided ? 1 : (int)R->below(3);
   if (place == 0) { Box bb = A.BoundingBox(); A = A.Translate(-bb.Center()); }
   else A = A.Translate(vec3(urange(-4, 4), urange(-4, 4), urange(-4, 4)));
   A = A.AsOriginal(); B = B.AsOriginal();
@@ -657,7 +658,12 @@ int main(int argc, char** argv) {
     for (int i = 0; i < nMink; i++) {
       if (now() > tEnd) { stats["mink_budget_stop_at"] = i; break; }
       int w = i % 8;
+      // every 6th pair: the sum of a LOPSIDED convex A placed away from the origin with a non-convex B (after the swap the
+      // structuring operand neither contains the origin nor its own bounding-box centre)
+      gLopsided = (i % 6 == 5);
+      if (gLopsided) minkCase(i, false, true, false); else
       minkCase(i, w >= 4, (w & 1) != 0, (w & 2) != 0);
+      gLopsided = false;
     }
   }
   printf("STATS");
